@@ -370,3 +370,5 @@ V("compile-error-eq-overloaded", "C17", "pyteal/errors.py", "        return self
 V("method-signature-python-name", "C08", "pyteal/ast/subroutine.py", "        if overriding_name is None:\n            overriding_name = self.name()\n        return f\"{overriding_name}", "        if overriding_name is None:\n            overriding_name = self.subroutine.implementation.__name__\n        return f\"{overriding_name}", "R09.5")
 V("methodcall-16-arguments-accepted", "C14", "pyteal/ast/itxn.py", "        if num_app_args > 15:", "        if num_app_args > 16:", "R14.1")
 V("label-getlabel-underscore", "C18", "pyteal/ir/labelref.py", "    def getLabel(self) -> str:\n        return self.label", "    def getLabel(self) -> str:\n        return (\"_\" + self.label) if self.label[:1].isdigit() else self.label", "R04.9")
+V("annotation-uint16-reads-uint32", "C07", "pyteal/ast/abi/util.py", "        return Uint16TypeSpec()\n\n    if origin is Uint32:", "        return Uint32TypeSpec()\n\n    if origin is Uint32:", "R07.8")
+V("annotation-static-array-args-swapped", "C07", "pyteal/ast/abi/array_static.py", "        return StaticArray[  # type: ignore[misc]\n            self.value_spec.annotation_type(), Literal[self.array_length]  # type: ignore\n        ]", "        return StaticArray[  # type: ignore[misc]\n            Literal[self.array_length], self.value_spec.annotation_type()  # type: ignore\n        ]", "R07.")
